@@ -74,7 +74,7 @@ Section EquivExtend.
   Ltac eve := cbv -[Z.add Z.sub Z.mul Z.div Z.modulo Z.eqb Z.ltb Z.leb Z.max Z.min Z.land Z.to_nat Z.of_nat W64 ISIZE_MAX
                   release esz ealign needs_drop is_pow2 layout_ok
                   is_default len capacity alignment vec_handle hdr_block reserve
-                  push iter_next extend_loop ints_of map pop_script A_N
+                  push iter_next extend_loop ints_of map pop_script A_N new_obj
                   get_block put_block set_handle
                   nth_error heap vecs].
 
@@ -166,5 +166,104 @@ Section EquivExtend.
     end.
     rewrite <- ER.
     destruct R as [[sc'| | | | |] s2]; cbv [after_loopE]; try reflexivity.
+  Qed.
+
+  (* ================= impl FromIterator (src/impl/from_iterator.rs) =================
+     `let mut v = MiniVec::new(); let it = iter.into_iter(); for x in it { v.push(x) }; v`
+     as written: a new object of the world, the same loop, the object returned.  Machine.from_iter is
+     this body with the name of the new vector given and Rust's unwinding glue (the local `v` is dropped
+     when the loop unwinds). *)
+  Definition from_iter_body (sc : list answer) : M nat :=
+    w <- new_obj cfg ;; extend cfg ncap w sc ;;; ret w.
+
+  Definition WHF : stmt :=
+    match fn_body from_iterator__MiniVec__from_iter_ast with
+    | Blk [_; _; SExpr (EBlock (Blk [_; _; w] _))] _ => w
+    | _ => SForeign "no loop"
+    end.
+  Definition ENVF (w : nat) (it0 : val) (vs : list val) (go : bool) : env :=
+    [("__go", VBool go); ("__it", VCtor "Script" vs); ("it", it0); ("v", VObj w); ("iter", it0)].
+
+  Definition after_loopF (K : env -> state -> AnsM) (w : nat) (it0 : val) (r : res (list answer) * state) : AnsM :=
+    match r with
+    | (Val sc', s') => K (ENVF w it0 (map VInt sc') false) s'
+    | (Panicking, s') => (Panic, s')
+    | (UB u, s') => (Fail (FUB u), s')
+    | (AllocAbort x y, s') => (Fail (FAllocAbort x y), s')
+    | (Abort, s') => (Fail FAbort, s')
+    | (OutOfFuel, s') => (Fail FNoFuel, s')
+    end.
+  Definition it_blindF (K : env -> state -> AnsM) (w : nat) (it0 : val) : Prop :=
+    forall vs1 vs2 s, K (ENVF w it0 vs1 false) s = K (ENVF w it0 vs2 false) s.
+
+  Lemma loop_equivFI w it0 kr K (HK : it_blindF K w it0) : forall k sc vs F s,
+    vs = map VInt sc ->
+    (List.length sc < k)%nat -> (k <= F)%nat ->
+    xstmt (S (40 + F)) WHF (ENVF w it0 vs true) s kr K = after_loopF K w it0 (extend_loop cfg ncap k w sc s).
+  Proof.
+    induction k as [|k IH]; intros sc vs F s Evs Hk HF; [lia|].
+    destruct F as [|F]; [lia|].
+    subst vs.
+    cbv [WHF from_iterator__MiniVec__from_iter_ast fn_body]. rewrite exec_while.
+    match goal with |- context [xstmt (40 + S F) ?x] => change x with WHF end.
+    remember (xstmt (40 + S F) WHF) as REC eqn:EREC.
+    cbn [extend_loop]. cbv [ENVF after_loopF bind ret] in *.
+    eve. rewrite ?ints_of_map. red1.
+    destruct (iter_next sc s) as [[[o sc']| | | | |] s1] eqn:En; red1; try reflexivity.
+    pose proof (iter_next_rest _ _ _ _ _ En) as Hsc.
+    destruct o as [e|]; red1.
+    - rewrite ?ints_of_map.
+      match goal with
+      | |- context [("__it", VCtor "Script" (map VInt ?t))] =>
+          replace t with sc' by (rewrite Hsc; reflexivity)
+      end.
+      destruct (push cfg ncap w e s1) as [[u| | | | |] s2] eqn:Ep; red1; try reflexivity.
+      subst REC. change (40 + S F)%nat with (S (40 + F)).
+      apply (IH sc' (map VInt sc') F s2 eq_refl); [|lia].
+      destruct sc as [|a sc0]; [exfalso; exact (iter_next_nil _ _ _ _ En)|].
+      cbn in Hsc. subst sc'. simpl in Hk. lia.
+    - subst REC. change (40 + S F)%nat with (S (40 + F)).
+      cbv [WHF from_iterator__MiniVec__from_iter_ast fn_body]. rewrite exec_while.
+      remember (xstmt (40 + F)) as REC eqn:EREC.
+      eve. apply HK.
+  Qed.
+
+  Definition run_from_iter (fuel : nat) (sc : list answer) (s : state) : AnsM :=
+    @eval_fn mfail state cfg NOF P fuel from_iterator__MiniVec__from_iter_ast [script_val sc] s.
+
+  Theorem from_iter_equiv sc s F :
+    (S (List.length sc) <= F)%nat ->
+    run_from_iter (FUEL + F) sc s = lift_m (from_iter_body sc) VObj s.
+  Proof.
+    intros HF.
+    unfold run_from_iter, eval_fn, script_val.
+    remember (map VInt sc) as vs eqn:Evs.
+    cbv [from_iterator__MiniVec__from_iter_ast fn_body fn_params FUEL combine rev app].
+    change (120 + F)%nat with (S (119 + F)). rewrite exec_block_S.
+    unfold lift_m, from_iter_body, extend. cbv [bind ret].
+    remember (extend_loop cfg ncap (S (List.length sc))) as EL eqn:EEL.
+    change (119 + F)%nat with (S (118 + F)).
+    next_stmt K1 EK1. eve. red1.
+    destruct (new_obj cfg s) as [[w| | | | |] s0] eqn:En; try reflexivity.
+    remember (EL w sc s0) as R eqn:ER.
+    subst K1. change (118 + F)%nat with (S (117 + F)).
+    next_stmt K1 EK1. eve. subst K1. change (117 + F)%nat with (S (116 + F)).
+    rewrite exec_stmts_cons. change (116 + F)%nat with (S (115 + F)). rewrite exec_sexpr_block.
+    change (115 + F)%nat with (S (114 + F)). rewrite exec_block_S.
+    change (114 + F)%nat with (S (113 + F)).
+    next_stmt K2 EK2. eve. subst K2. change (113 + F)%nat with (S (112 + F)).
+    next_stmt K3 EK3. eve. subst K3. change (112 + F)%nat with (S (111 + F)).
+    rewrite exec_stmts_cons.
+    match goal with |- context [xstmt (111 + F) ?x] => change x with WHF end.
+    change [("__go", VBool true); ("__it", VCtor "Script" vs); ("it", VCtor "Script" vs); ("v", VObj w); ("iter", VCtor "Script" vs)]
+      with (ENVF w (VCtor "Script" vs) vs true).
+    change (111 + F)%nat with (S (40 + (70 + F))).
+    match goal with
+    | |- xstmt _ WHF _ _ ?kr ?K = _ =>
+        assert (HK : it_blindF K w (VCtor "Script" vs)) by (intros vs1 vs2 s'; reflexivity);
+        rewrite (loop_equivFI w (VCtor "Script" vs) kr K HK (S (List.length sc)) sc vs (70 + F)%nat s0 Evs) by (unfold answer in *; lia)
+    end.
+    rewrite <- EEL, <- ER.
+    destruct R as [[sc'| | | | |] s2]; cbv [after_loopF]; try reflexivity.
   Qed.
 End EquivExtend.
